@@ -74,7 +74,7 @@ HasLineBreak(s) == \E i \in 1..Len(s) : CharAt(s, i) = "\n"
 
 (* a report of the boring-assignment pass *)
 NumDiag(line, target, v, rockForm) ==
-  [pass |-> "boring", line |-> line, target |-> target, value |-> NumToStr(v), det |-> v.c # "inexact",
+  [pass |-> "boring", line |-> line, target |-> target, value |-> NumToStr(v), det |-> v.c \notin {"inexact", "rat"},
    sugg |-> IF ~HasPoeticSpelling(v) THEN <<>>
             ELSE << (IF rockForm THEN "Rock " \o target \o " like " ELSE target \o " is ") \o Template(NumToStr(v), TRUE) >>]
 StrDiag(line, target, v) ==
